@@ -12,9 +12,13 @@ import (
 	"fmt"
 	"net/http"
 	"net/http/httptest"
+	"regexp"
 	"sort"
 	"strconv"
 	"strings"
+	"sync"
+
+	"github.com/klauspost/compress/zstd"
 
 	"github.com/apache/arrow-go/v18/arrow"
 	"github.com/apache/arrow-go/v18/arrow/array"
@@ -25,6 +29,77 @@ import (
 )
 
 const arrowCT = "application/vnd.apache.arrow.stream"
+
+// figure reported by a wire-cap refusal
+var capWireRe = regexp.MustCompile(`max_response_bytes \((\d+) > (\d+)\)`)
+
+type unaryParams struct {
+	Logs int64  `vgirpc:"logs"`
+	Size int64  `vgirpc:"size"`
+	Mode string `vgirpc:"mode"`
+}
+
+var unaryParamsSchema = arrow.NewSchema([]arrow.Field{
+	{Name: "logs", Type: arrow.PrimitiveTypes.Int64},
+	{Name: "size", Type: arrow.PrimitiveTypes.Int64},
+	{Name: "mode", Type: arrow.BinaryTypes.String},
+}, nil)
+
+// memStorage is an in-memory vgirpc.ExternalStorage: fixed-length URLs, every upload recorded.
+type memStorage struct {
+	mu   sync.Mutex
+	objs [][]byte
+	encs []string
+}
+
+func (m *memStorage) Upload(data []byte, _ *arrow.Schema, contentEncoding string) (string, error) {
+	m.mu.Lock()
+	defer m.mu.Unlock()
+	m.objs = append(m.objs, append([]byte(nil), data...))
+	m.encs = append(m.encs, contentEncoding)
+	return fmt.Sprintf("https://store.invalid/o/%08d", len(m.objs)-1), nil
+}
+
+func (m *memStorage) count() int {
+	m.mu.Lock()
+	defer m.mu.Unlock()
+	return len(m.objs)
+}
+
+// raw returns the uncompressed bytes of object i.
+func (m *memStorage) raw(i int) []byte {
+	m.mu.Lock()
+	defer m.mu.Unlock()
+	if i < 0 || i >= len(m.objs) {
+		return nil
+	}
+	if m.encs[i] == "zstd" {
+		dec, err := zstd.NewReader(nil)
+		if err != nil {
+			return nil
+		}
+		defer dec.Close()
+		out, err := dec.DecodeAll(m.objs[i], nil)
+		if err != nil {
+			return nil
+		}
+		return out
+	}
+	return m.objs[i]
+}
+
+// byURL returns the object index a storage URL names, or -1.
+func (m *memStorage) byURL(u string) int {
+	const prefix = "https://store.invalid/o/"
+	if !strings.HasPrefix(u, prefix) {
+		return -1
+	}
+	n, err := strconv.Atoi(u[len(prefix):])
+	if err != nil {
+		return -1
+	}
+	return n
+}
 
 type scriptParams struct {
 	Prog   string `vgirpc:"prog"`
@@ -44,6 +119,9 @@ type streamCfg struct {
 	maxExt    int64
 	limit     int
 	instances int
+	ext       bool  // configure an in-memory external storage
+	thr       int64 // externalize threshold (bytes)
+	zstd      bool  // compress uploads
 }
 
 type tokInfo struct {
@@ -54,6 +132,7 @@ type tokInfo struct {
 }
 
 type streamEnv struct {
+	store   *memStorage
 	cfg     streamCfg
 	srv     *vgirpc.Server
 	hs      []*vgirpc.HttpServer
@@ -74,6 +153,18 @@ func registerScriptMethods(srv *vgirpc.Server) {
 			return &vgirpc.StreamResult{OutputSchema: scriptValueSchema, InputSchema: scriptValueSchema,
 				State: newScriptState("ex", p.Cancel, p.Prog, p.Rec)}, nil
 		})
+	vgirpc.Unary(srv, "un", func(_ context.Context, cc *vgirpc.CallContext, p unaryParams) (string, error) {
+		for i := int64(0); i < p.Logs; i++ {
+			cc.ClientLog(vgirpc.LogInfo, fmt.Sprintf("m%d", i))
+		}
+		switch p.Mode {
+		case "fail":
+			return "", &vgirpc.RpcError{Type: "ValueError", Message: fmt.Sprintf("fail-%d", p.Size)}
+		case "panic":
+			panic(fmt.Sprintf("panic-%d", p.Size))
+		}
+		return strings.Repeat("a", int(p.Size)), nil
+	})
 	vgirpc.Producer(srv, "pr", scriptValueSchema,
 		func(_ context.Context, _ *vgirpc.CallContext, p scriptParams) (*vgirpc.StreamResult, error) {
 			return &vgirpc.StreamResult{OutputSchema: scriptValueSchema,
@@ -85,6 +176,14 @@ func newStreamEnv(cfg streamCfg) *streamEnv {
 	e := &streamEnv{cfg: cfg, callTok: map[string]int{}}
 	e.srv = vgirpc.NewServer()
 	registerScriptMethods(e.srv)
+	if cfg.ext {
+		e.store = &memStorage{}
+		ec := &vgirpc.ExternalLocationConfig{Storage: e.store, ExternalizeThresholdBytes: cfg.thr}
+		if cfg.zstd {
+			ec.Compression = &vgirpc.Compression{Algorithm: "zstd", Level: 3}
+		}
+		e.srv.SetExternalLocation(ec)
+	}
 	if cfg.instances < 1 {
 		cfg.instances = 1
 		e.cfg.instances = 1
@@ -134,6 +233,12 @@ func parseStreamCfg(f []string) (streamCfg, bool) {
 			cfg.limit = int(n)
 		case "inst":
 			cfg.instances = int(n)
+		case "ext":
+			cfg.ext = n != 0
+		case "thr":
+			cfg.thr = n
+		case "zstd":
+			cfg.zstd = n != 0
 		default:
 			return cfg, false
 		}
@@ -206,7 +311,13 @@ func parseIPCBody(body []byte) ([]respBatch, bool) {
 				b.values = append(b.values, md.Values()...)
 			}
 			if rb.NumCols() > 0 {
-				b.vals, _ = inputValues(rb)
+				if sc, ok := rb.Column(0).(*array.String); ok {
+					for i := 0; i < sc.Len(); i++ {
+						b.vals = append(b.vals, int64(len(sc.Value(i))))
+					}
+				} else {
+					b.vals, _ = inputValues(rb)
+				}
 			}
 			out = append(out, b)
 		}
@@ -422,8 +533,33 @@ func (b respBatch) isException() bool {
 	return lv == string(vgirpc.LogException)
 }
 
+// resolvePointer replaces an external-location pointer batch by the batch that was uploaded
+// (values and custom metadata of the first batch of the stored IPC stream).
+func (e *streamEnv) resolvePointer(b respBatch) (respBatch, bool) {
+	if e.store == nil || b.rows != 0 || b.isLog() {
+		return b, false
+	}
+	u, ok := b.get(vgirpc.MetaLocation)
+	if !ok {
+		return b, false
+	}
+	idx := e.store.byURL(u)
+	raw := e.store.raw(idx)
+	if raw == nil {
+		return b, false
+	}
+	inner, ok := parseIPCBody(raw)
+	if !ok || len(inner) == 0 {
+		return b, false
+	}
+	return inner[0], true
+}
+
 // renderBatch: L<n> | X:<kind> | D[v.v]{k=v,...}^<cursor>~<call>
 func (e *streamEnv) renderBatch(b respBatch) string {
+	if rb, ok := e.resolvePointer(b); ok {
+		b = rb
+	}
 	if b.isLog() {
 		msg, _ := b.get(vgirpc.MetaLogMessage)
 		if b.isException() {
@@ -481,6 +617,9 @@ func (e *streamEnv) renderResp(r *httpResult) string {
 	}
 	// learn new tokens in wire order first, so indices follow the order of appearance
 	for _, b := range r.batches {
+		if rb, ok := e.resolvePointer(b); ok {
+			b = rb
+		}
 		for i := range b.keys {
 			e.symOf(b.values[i], true)
 		}
